@@ -598,7 +598,7 @@ def run(chk: Check) -> int:
     evaluations = 0
     calls_total = 0
     shapes = kc.all_shapes(4)
-    reps = chk.budget(3, 40)
+    reps = chk.budget(2, 25)
     chosen = [(s, rep) for rep in range(reps) for s in shapes]
     cases = []
     origin = []
